@@ -6,7 +6,7 @@ def run(tier='quick', seed=0, nproc=16):
   n = 4 if tier == 'quick' else 6
   jobs = gen.shuffled([(s.kinds, s.hasdef, 2 if tier == 'quick' else 3) for s in gen.all_sigs(n)])
   res = common.pmap(c01.check_sig, jobs, nproc)
-  res.append(c01.callable_kinds_case())
+  res.append(common.guard(c01.callable_kinds_case))
   return common.merge(
       res, 'layerb.c01',
       rule='exhaustive: signature shape (<=%d params, every default pattern) x every subset of '
